@@ -168,7 +168,12 @@ func c18DNS(line string, queries []string) string {
 		if _, ok := r.(*rules.HostRule); !ok {
 			return "nohost"
 		}
-		s, err := filterlist.NewRuleStorage([]filterlist.RuleList{&filterlist.StringRuleList{ID: 1, RulesText: line + "\n"}})
+		var list filterlist.RuleList = &filterlist.StringRuleList{ID: 1, RulesText: line + "\n"}
+		if c18ListHook != nil {
+			// family c18chunk (op_m4_readers.go): the same line served by a reader with short reads
+			list = c18ListHook(line)
+		}
+		s, err := filterlist.NewRuleStorage([]filterlist.RuleList{list})
 		if err != nil {
 			return "storage-error"
 		}
